@@ -60,6 +60,8 @@ CLASSES = {
     'hold-expiry': (('established',), {(4, 0)}),
     'openwait-expiry': (('await-open',), {(5, 1)}),
     'teardown': (('established',), 'cease'),
+    # a subcode that does not fit the octet the NOTIFICATION has for it: the command is refused and the session goes on
+    'teardown-badcode': (('established',), 'ignored'),
     'notif-ok': (('await-open', 'openconfirm', 'established'), None),
     'notif-long': (('await-open', 'openconfirm', 'established'), None),
     'notif-unknown-code': (('await-open', 'openconfirm', 'established'), None),
@@ -258,6 +260,9 @@ def execute(plan: dict) -> dict:
             return  # simply never send the OPEN
         if cls == 'teardown':
             h.emit(f'peer {PEER} teardown {2 + spec.get("arg", 0) % 8}\n'.encode())
+            return
+        if cls == 'teardown-badcode':
+            h.emit(f'peer {PEER} teardown {[256, 99999, 1000, 65536][spec.get("arg", 0) % 4]}\n'.encode())
             return
         data = injection(spec, spk, sess, plan)
         if spec.get('prelude_split') and spec['state'] == 'established':
